@@ -320,7 +320,7 @@ def run(prop_id, tier='quick', seed=1, replay=None):
         from . import fuzz as _fuzz
         fstats, fviols, fuzz_info = _fuzz.campaign(
             prop_id, fz.get('procs', NSHARDS), fz['runs'], seed, fz['wall'],
-            tier)
+            tier, fz.get('pool', 192))
         execs = 0
         for fs in fstats:
             execs += fs['evaluations']
